@@ -65,6 +65,12 @@ def mk(kind, me, n):
     return ("prog", kind[1], n % 7)
 
 
+PARAM_SHAPES = (None, {}, {"a": {"b": [1, None, " "]}, "n": None},
+                {"_meta": {"traceparent": "00-ab-01", "tenant": 7}, "x": 1},          # the caller's own _meta entries must survive
+                {"_meta": {"progressToken": "stale-token", "k": None}, "y": [None]},  # a dict reused from an earlier call
+                {"_meta": {}})
+
+
 def gen(ctx):
     rng = ctx.rng
     out = []
@@ -85,7 +91,14 @@ def gen(ctx):
         hot = [0, 49, 50, 51, 99, 100, 101, D - 1, D, D + 1]
         ts = sorted((rng.choice(hot) if rng.random() < 0.5 else rng.randrange(-2, D + 30)) for _ in range(L))
         out.append({"D": D, "me": me, "arrivals": [(t, mk(rng.choice(KINDS), me, i)) for i, t in enumerate(ts)],
-                    "params": rng.choice((None, {}, {"a": {"b": [1, None, " "]}, "n": None}))})
+                    "params": rng.choice(PARAM_SHAPES)})
+    # every params shape, with and without a progress callback (the token is written into params._meta), a matching progress
+    # notification and the answer
+    for shape in PARAM_SHAPES:
+        for has_cb in (False, True):
+            for me in ("a", None):
+                out.append({"D": 100, "me": me, "params": shape, "has_cb": has_cb,
+                            "arrivals": [(10, ("prog", True, 3)), (20, ("res", ("me",), 4))]})
     for s in out:
         s.setdefault("has_cb", any(m[0] == "prog" for _t, m in s["arrivals"]) and rng.random() < 0.7)
         s.setdefault("cancel", None)
